@@ -486,7 +486,7 @@ def api_configs_with_neighbours(tier, seed):
     base = api_configs(tier, seed)
     out = list(base)
     for i, c in enumerate(base):
-        if c['family'] == 'ES':
+        if c['family'] == 'ES' or (c.get('other_small') is not None and c['other_small'] % 5):
             continue
         for j, nb in enumerate(NEIGHBOURS):
             if tier == 'thorough' or (i + j + seed) % 3 == 0:
